@@ -337,6 +337,8 @@ func run(c *vh.Ctx) error {
 		}
 		defer drv.Close()
 	}
+	journalPath = c.ReplayDir + "/C18-last-input.replay"
+	defer os.Remove(journalPath)
 	// ---- corpus first ------------------------------------------------------------------------------
 	for _, f := range vh.CorpusFiles("C18") {
 		body, comments, err := vh.ReadReplay(f)
@@ -457,6 +459,8 @@ func run(c *vh.Ctx) error {
 	runLargeResets(c, drv)
 	// ---- end-to-end tier: the real fetch loop with scripted peers ---------------------------------------
 	runLoopTier(c)
+	// ---- skeleton header fill with a gated processor; peer capacities ---------------------------------------
+	runExtraTier(c)
 	// ---- announcement/propagation path: the real you/fetcher.Fetcher with scripted peers and a blocking importer ----
 	runFetcherTier(c)
 	res.Extra["ops_compared"] = totalOps
@@ -475,6 +479,22 @@ func run(c *vh.Ctx) error {
 func replayWith(drv *vh.Driver, body, comments []string) (bool, string) {
 	if len(body) == 0 {
 		return false, "empty replay"
+	}
+	if strings.HasPrefix(body[0], "SKEL ") {
+		k, err := parseSkel(body[0])
+		if err != nil {
+			return false, err.Error()
+		}
+		if v := runSkel(k); v != "" {
+			return true, "oracle: " + v
+		}
+		return false, "skeleton fill: the header processor receives the honest chain in order, once, gap-free"
+	}
+	if strings.HasPrefix(body[0], "CAP ") {
+		if v := runCap(parseCap(body[0])); v != "" {
+			return true, "oracle: " + v
+		}
+		return false, "peer capacities stay >= 1, bounded and finite after every step"
 	}
 	if strings.HasPrefix(body[0], "FETCHER ") {
 		f := strings.Fields(body[0])
